@@ -401,8 +401,9 @@ class RecycleBSE(SyncBSE):
     def __init__(s, prog, cfg):
         c = {'manager': 'sqlite', 'depth': 10, 'backend': {}, 'prefix': (), 'method': 'Fast', 'oracles': ('C15',), 'max_interacts': 0, 'outcomes': ('ok',), 'create': 'ok'}
         c.update(cfg); s.cfg = c
-        env = RecycleEnv({'backend': c['backend']}); env.home = {'sqlite': 'deadpool_sqlite', 'r2d2': 'deadpool_r2d2', 'diesel': 'deadpool_diesel'}[c['manager']]
+        env = RecycleEnv({'backend': c['backend'], 'split': bool(c.get('split'))}); env.home = {'sqlite': 'deadpool_sqlite', 'r2d2': 'deadpool_r2d2', 'diesel': 'deadpool_diesel'}[c['manager']]
         s.W = World(prog, env); s.M = s.W.M
+        s.M.allow_block = bool(c.get('split'))
         for k, v in (('Runtime', ['Tokio1']), ('InteractError', ['Panic', 'Aborted']), ('SpawnBlockingError', ['Panic'])): s.M.enums.setdefault(k, v)
         s.F = lambda suf: s.W.find(suf, 'sync/src/lib.rs')
         s.nprobes = 0; s.susp = {}; s.structs = prog.structs
@@ -441,14 +442,19 @@ class RecycleBSE(SyncBSE):
                 elif p == 'interact_panic': cur = drive(cur, [('interact', 'panic'), ('run', cur[0].gget('n_btask', 0) + 1), ('poll',)])
                 elif p == 'cancelled_panic_queued': cur = drive(cur, [('interact', 'panic'), ('cancel',)])
                 elif p == 'cancelled_ok_queued': cur = drive(cur, [('interact', 'ok'), ('cancel',)])
+                elif p in ('cancelled_ok_running', 'cancelled_panic_running'):
+                    # the closure of a cancelled interaction is still inside the wrapper (needs cfg split)
+                    cur = drive(cur, [('interact', p.split('_')[1]), ('run', cur[0].gget('n_btask', 0) + 1), ('cancel',)])
             out.extend(cur)
         return out
 
     def actions(s, st):
         acts = []
         A = st.threads['A'].local
+        if st.gget('a_blocked'): return []
+        running = any(t['state'] == 'running' for t in st.gget('btasks', {}).values())
         for k, t in st.gget('btasks', {}).items():
-            if t['state'] == 'queued': acts.append(('run', k))
+            if t['state'] in ('queued', 'running') or (t['state'] == 'blocked' and not running): acts.append(('run', k))
         if 'fut' in A: acts.append(('poll',))
         elif not st.gget('recycled'): acts.append(('recycle',))
         return acts
@@ -500,6 +506,7 @@ class RecycleBSE(SyncBSE):
         last = st.gget('last') or {}; r = last.get('res')
         for (what, kind, o) in st.gget('backend_calls', ()):
             if kind != 'blocking': out.append(s.vio(f'the backend check {what} ran on an async thread', st))
+        if st.gget('a_blocked'): out.append(s.vio('recycle() makes the async thread wait for the connection mutex while a closure is still running', st))
         if r and r[0] == 'recycle':
             if r[1] == 'panic': out.append(s.vio('Manager::recycle panicked', st)); return out
             b = s.cfg['backend']
